@@ -150,6 +150,19 @@ fn scenarios() -> Vec<Scn> {
         add(&format!("parse:{syn}"), true, u64::MAX);
         add(&format!("serialize:{syn}"), true, u64::MAX);
     }
+    // long runs of input that yields no statement
+    for (syn, gap, quick) in [
+        ("nt", "comments", true),
+        ("nq", "comments", true),
+        ("turtle", "comments", false),
+        ("turtle", "prefixes", true),
+        ("turtle", "bases", false),
+        ("trig", "prefixes", true),
+        ("trig", "empty-graphs", true),
+        ("rdfxml", "comments", true),
+    ] {
+        add(&format!("parsegap:{syn}+{gap}"), quick, u64::MAX);
+    }
     // the pretty printer is quadratic in the number of statements: bounded by time
     add("serialize:turtle-pretty", true, 10_000);
     add("serialize:trig-pretty", true, 10_000);
@@ -485,6 +498,31 @@ fn scenario(name: &str, n: u64) -> Result<String, String> {
             _ => Err(format!("unknown scenario {name}")),
         },
         "parse" => parse(what, &document(what, n)),
+        // N consecutive lines / constructs that yield no statement (comments, empty lines,
+        // directives, empty graphs, ignorable XML content), then one statement
+        "parsegap" => {
+            let (syntax, gap) = what.split_once('+').unwrap_or((what, "comments"));
+            let mut doc = String::new();
+            if syntax == "rdfxml" {
+                doc.push_str("<?xml version=\"1.0\"?>\n<rdf:RDF xmlns:rdf=\"http://www.w3.org/1999/02/22-rdf-syntax-ns#\" xmlns:e=\"http://x/\">\n");
+            }
+            for i in 0..n {
+                match (syntax, gap) {
+                    ("rdfxml", _) => doc.push_str(&format!("<!-- comment {i} -->\n")),
+                    (_, "comments") => doc.push_str(if i % 2 == 0 { "# a comment\n" } else { "\n" }),
+                    (_, "prefixes") => doc.push_str(&format!("@prefix p{}: <http://x/ns{i}#> .\n", i % 50)),
+                    (_, "bases") => doc.push_str(&format!("@base <http://x/b{i}/> .\n")),
+                    (_, "empty-graphs") => doc.push_str(&format!("<http://x/g{i}> {{ }}\n")),
+                    _ => doc.push_str("# c\n"),
+                }
+            }
+            if syntax == "rdfxml" {
+                doc.push_str("<rdf:Description rdf:about=\"http://x/s\"><e:p>v</e:p></rdf:Description>\n</rdf:RDF>\n");
+            } else {
+                doc.push_str("<http://x/s> <http://x/p> <http://x/o> .\n");
+            }
+            parse(syntax, &doc)
+        }
         "serialize" => {
             let quads = matches!(what, "nq" | "trig" | "trig-pretty" | "jsonld");
             serialize(what, &statements(n, quads))
